@@ -202,6 +202,8 @@ class C08Raised(Exception):
 # --------------------------------------------------------------------------- running the real code
 def C08_write_phase(case, loop):
     """real ShardedTensor -> prepare_write -> staged bytes. Returns (entry, store, subdivision dim)."""
+    if "negdim" not in case:
+        case["negdim"] = (hash((tuple(case["shape"]), case["max_bytes"], case.get("order_seed", 0))) % 2 == 1)
     from torchsnapshot.io_preparers.sharded_tensor import ShardedTensorIOPreparer
     from torchsnapshot.knobs import override_max_shard_size_bytes
 
@@ -212,6 +214,12 @@ def C08_write_phase(case, loop):
     from torch.distributed._shard.sharding_spec import ChunkShardingSpec
     spec = src.sharding_spec()
     dim = int(spec.dim) if isinstance(spec, ChunkShardingSpec) else 0
+    if isinstance(spec, ChunkShardingSpec) and case.get("negdim"):
+        # PyTorch accepts a negative sharding dim (dim=-1 is the last dim): same sharding, spelled differently
+        import copy as _copy
+        neg = _copy.copy(spec)
+        neg.dim = dim - len(case["shape"])
+        src._sharding_spec = neg
     try:
         with override_max_shard_size_bytes(case["max_bytes"]):
             entry, wrs = ShardedTensorIOPreparer.prepare_write("sharded/x", src)
